@@ -6,13 +6,14 @@ C04, interleaving layer: a small-step model of two keepstore goroutines working 
       CompareAndTouch [Compare = stat + getFunc(lock, open, read), Touch] → on any failure
       NextWritable().Put = WriteBlock, which since fix 7e105eb opens the file it is about to
       replace and takes its flock before the rename)
-  T : a DELETE request (handleDELETE → UnixVolume.Trash) or one trash-list item
-      (TrashItem = Mtime, then Trash)
+  T : a DELETE request (handleDELETE → UnixVolume.Trash), one trash-list item
+      (TrashItem = Mtime, then Trash), or one untrash request (UnixVolume.Untrash: ReadDir, Rename of
+      the trashed copy `x` onto the block path, Chtimes; it takes neither lock)
 
 One micro-step = the code between two consecutive `verifPoint`s of the instrumented
 unix_volume.go (one filesystem / lock call each); its `label` is the point's "<Func>:<callee>".
-Filesystem: at most two inodes ever exist for `p`: `a` (the copy present before the race) and `b`
-(the temp file WriteBlock creates and renames to `p`). flock(2) is a per-inode mutex; the optional
+Filesystem: at most three inodes exist for `p`: `a` (the copy present before the race), `b` (the temp
+file WriteBlock creates and renames to `p`) and, when T is an untrash, `x` (an old intact copy in the trash). flock(2) is a per-inode mutex; the optional
 `Serialize` volume mutex is `mutex`. Time does not advance during the race: an inode is either
 `fresh` (mtime younger than BlobSigningTTL) or not; Touch/WriteBlock stamp "now", which is fresh
 (BlobSigningTTL > 0).
@@ -21,7 +22,7 @@ namespace ArvVerif.C04.Race
 
 inductive Pre | absent | good | corrupt deriving DecidableEq, Repr
 inductive POp | touch | put deriving DecidableEq, Repr
-inductive TOp | del | ti deriving DecidableEq, Repr
+inductive TOp | del | ti | untrash deriving DecidableEq, Repr
 
 structure Cfg where
   serialize : Bool
@@ -32,7 +33,7 @@ structure Cfg where
   top : TOp
 deriving DecidableEq, Repr
 
-inductive Ino | a | b deriving DecidableEq, Repr
+inductive Ino | a | b | x deriving DecidableEq, Repr
 inductive Loc | none | blk | tmp | trash | gone deriving DecidableEq, Repr
 inductive Thr | p | t deriving DecidableEq, Repr
 
@@ -43,11 +44,11 @@ inductive PPC
   | done
 deriving DecidableEq, Repr
 
-inductive TPC | iMtime | dLock | dOpen | dFlock | dStat | dRemove | dRename | done
+inductive TPC | iMtime | dLock | dOpen | dFlock | dStat | dRemove | dRename | uReadDir | uRename | uChtimes | done
 deriving DecidableEq, Repr
 
 inductive PRes | none | okTouch | okWrite | notFound deriving DecidableEq, Repr
-inductive TRes | none | skipped | notFound | kept | trashed | failed deriving DecidableEq, Repr
+inductive TRes | none | skipped | notFound | kept | trashed | failed | restored deriving DecidableEq, Repr
 
 structure St where
   cfg : Cfg
@@ -55,11 +56,14 @@ structure St where
   pcT : TPC
   locA : Loc
   locB : Loc
+  locX : Loc
   aTouched : Bool
+  xTouched : Bool
   fdP : Option Ino
   fdT : Option Ino
   flockA : Option Thr
   flockB : Option Thr
+  flockX : Option Thr
   mutex : Option Thr
   waitP : Bool
   waitT : Bool
@@ -69,29 +73,46 @@ deriving DecidableEq, Repr
 
 /-- the inode currently linked at the block path -/
 def St.blk (s : St) : Option Ino :=
-  if s.locB = .blk then some .b else if s.locA = .blk then some .a else none
+  if s.locB = .blk then some .b else if s.locX = .blk then some .x else if s.locA = .blk then some .a else none
 
 def St.fresh (s : St) : Ino → Bool
   | .a => !s.cfg.ageOld || s.aTouched
   | .b => true
+  | .x => s.xTouched       -- the trashed copy is old until someone stamps it
 
 def St.good (s : St) : Ino → Bool
   | .a => s.cfg.pre = .good
   | .b => true
+  | .x => true            -- the trashed copy of this model is intact (a corrupt one: Props, C04_put_readable_*)
 
 def St.flock (s : St) : Ino → Option Thr
   | .a => s.flockA
   | .b => s.flockB
+  | .x => s.flockX
 
 def St.setFlock (s : St) (i : Ino) (v : Option Thr) : St :=
   match i with
   | .a => { s with flockA := v }
   | .b => { s with flockB := v }
+  | .x => { s with flockX := v }
 
 def St.setLoc (s : St) (i : Ino) (l : Loc) : St :=
   match i with
   | .a => { s with locA := l }
   | .b => { s with locB := l }
+  | .x => { s with locX := l }
+
+/-- a rename onto the block path unlinks whatever was there -/
+def St.unlinkBlk (s : St) : St :=
+  match s.blk with
+  | some i => s.setLoc i .gone
+  | none => s
+
+/-- utimes(now) on inode i -/
+def St.stamp (s : St) : Ino → St
+  | .a => { s with aTouched := true }
+  | .b => s
+  | .x => { s with xTouched := true }
 
 def init (c : Cfg) : St :=
   { cfg := c
@@ -100,15 +121,19 @@ def init (c : Cfg) : St :=
       | .del => .dLock
       -- TrashItem returns before any filesystem call when the request's mtime is younger than the TTL
       | .ti => if c.pre ≠ .absent ∧ !c.ageOld then .done else .iMtime
+      | .untrash => .uReadDir
     locA := if c.pre = .absent then .none else .blk
+    locX := if c.top = .untrash then .trash else .none
+    xTouched := false
     locB := .none
     aTouched := false
-    fdP := none, fdT := none, flockA := none, flockB := none, mutex := none
+    fdP := none, fdT := none, flockA := none, flockB := none, flockX := none, mutex := none
     waitP := false, waitT := false
     resP := .none
     resT := match c.top with
       | .del => .none
-      | .ti => if c.pre ≠ .absent ∧ !c.ageOld then .skipped else .none }
+      | .ti => if c.pre ≠ .absent ∧ !c.ageOld then .skipped else .none
+      | .untrash => .none }
 
 /-- can thread `x` take the Serialize mutex now? (always, when Serialize is off) -/
 def St.mutexFree (s : St) : Bool := !s.cfg.serialize || s.mutex.isNone
@@ -119,7 +144,8 @@ def St.dropMutex (s : St) : St := { s with mutex := none }
 /-- release every flock held by thread x -/
 def St.dropFlocks (s : St) (x : Thr) : St :=
   { s with flockA := if s.flockA = some x then none else s.flockA
-           flockB := if s.flockB = some x then none else s.flockB }
+           flockB := if s.flockB = some x then none else s.flockB
+           flockX := if s.flockX = some x then none else s.flockX }
 
 def St.blockP (s : St) : St := { s with waitP := true }
 def St.blockT (s : St) : St := { s with waitT := true }
@@ -162,7 +188,7 @@ def stepP (s0 : St) : St :=
     let r := ((s.dropFlocks .p).dropMutex)
     match s.blk with
     | some i =>
-      { r with pcP := .done, fdP := none, resP := .okTouch, aTouched := if i = .a then true else r.aTouched }
+      { r.stamp i with pcP := .done, fdP := none, resP := .okTouch }
     | none => { r with fdP := none }.pFail
   | .wMkdir => { s with pcP := .wTemp }         -- WriteBlock: os.MkdirAll
   | .wTemp => { s with pcP := .wLock, locB := .tmp }   -- v.os.TempFile
@@ -180,7 +206,7 @@ def stepP (s0 : St) : St :=
     | some i => if (s.flock i).isNone then { s.setFlock i (some .p) with pcP := .wRename } else s.blockP
     | none => { s with pcP := .wRename }
   | .wRename =>                                 -- v.os.Rename(tmp, p): replaces whatever is linked at p
-    let s1 := if s.locA = .blk then { s with locA := .gone } else s
+    let s1 := s.unlinkBlk
     { (s1.dropFlocks .p).dropMutex with pcP := .done, locB := .blk, fdP := none, resP := .okWrite }
   | .done => s0
 
@@ -219,6 +245,15 @@ def stepT (s0 : St) : St :=
     match s.blk with
     | some i => (s.setLoc i .trash).tReturn .trashed
     | none => s.tReturn .failed
+  /- T = one untrash request (handleUntrash → UnixVolume.Untrash): no Serialize lock, no flock -/
+  | .uReadDir =>                                -- ioutil.ReadDir(blockDir): is there a <h>.trash.* name?
+    if s.locX = .trash then { s with pcT := .uRename } else { s with pcT := .done, resT := .notFound }
+  | .uRename =>                                 -- v.os.Rename(<h>.trash.<d>, p): replaces whatever is linked at p
+    { s.unlinkBlk with locX := .blk, pcT := .uChtimes }
+  | .uChtimes =>                                -- os.Chtimes(p, now) BY PATH (fix f7a86a4)
+    match s.blk with
+    | some i => { s.stamp i with pcT := .done, resT := .restored }
+    | none => { s with pcT := .done, resT := .restored }
   | .done => s0
 
 /-- scheduler letter: `true` = P, `false` = T -/
@@ -250,7 +285,9 @@ def labelP : PPC → String
 def labelT : TPC → String
   | .iMtime => "Mtime:v.os.Stat" | .dLock => "Trash:v.lock" | .dOpen => "Trash:v.os.OpenFile"
   | .dFlock => "Trash:v.lockfile" | .dStat => "Trash:v.os.Stat" | .dRemove => "Trash:v.os.Remove"
-  | .dRename => "Trash:v.os.Rename" | .done => "-"
+  | .dRename => "Trash:v.os.Rename"
+  | .uReadDir => "Untrash:ioutil.ReadDir" | .uRename => "Untrash:v.os.Rename" | .uChtimes => "Untrash:os.Chtimes"
+  | .done => "-"
 
 def St.wait (s : St) (x : Bool) : Bool := if x then s.waitP else s.waitT
 def St.finished (s : St) (x : Bool) : Bool := if x then s.pcP = .done else s.pcT = .done
